@@ -93,6 +93,9 @@ def main(argv=None):
     t0 = time.time()
     mod.install(rec)
     rec.note("install_s", round(time.time() - t0, 2))
+    # the case budget starts once the library is imported and the monitors are
+    # attached (a cold numba cache makes the import itself slow)
+    t0 = time.time()
     workloads = mod.WORKLOADS
     if args.only:
         workloads = [w for w in workloads if w[0] == args.only]
